@@ -49,5 +49,6 @@ ROLES = {
 
 # locals that merely name a place (`atom = res.atoms[i]`) are dissolved in these functions
 ALIASES = {
-    "molli/chem/structure.py:Structure.yield_from_mol2": lambda v: _u(v).startswith("res.atoms["),
+    "molli/chem/structure.py:Structure.yield_from_mol2": lambda v: _u(v).startswith("res.atoms[") or _u(v) == "block.header" or _u(v).startswith("DistanceUnit["),
+    "molli/chem/geometry.py:CartesianGeometry.yield_from_xyz": lambda v: _u(v).startswith("DistanceUnit[") or _u(v).startswith("geom.atoms["),
 }
